@@ -57,21 +57,38 @@ def r1(ctx, rep, ci):
     sr = method(ctx, ci, "send_request")
     allowed_writers = {"__init__", "_send_request", "_max_retries_reached", "_close_transport"}
     classes = [c for c in prog.mro(ci) if hasattr(c, "methods")]
+    from ..inventory import KNOWN_FUNCS
+
+    def effects(m, depth=0):
+        """(stores of in-flight attributes [(attr, value)], transmits) of m, including the helpers a later change
+        extracted (functions outside the pinned inventory are transparent: their effects belong to their callers)."""
+        st, snd = [], False
+        for n in ast.walk(m.node):
+            if isinstance(n, ast.stmt):
+                for a, v, _ in self_store(n):
+                    if a in INFLIGHT:
+                        st.append((a, v))
+            if isinstance(n, ast.Call):
+                if (call_chain(n) or ())[:2] == ("self", "_transport") and (call_chain(n) or ("",))[-1] in ("sendto", "write"):
+                    snd = True
+                elif depth < 4:
+                    for g in res.resolve_call(n, m).funcs:
+                        if g.qualname not in KNOWN_FUNCS and not g.is_lambda and g is not m:
+                            st2, snd2 = effects(g, depth + 1)
+                            st.extend(st2)
+                            snd = snd or snd2
+        return st, snd
+
     for c in classes:
         for m in c.methods.values():
-            if m in cbs:
-                continue
+            if m in cbs or (m.qualname not in KNOWN_FUNCS and res.callers_of(m)):
+                continue   # a called helper outside the inventory is accounted to its callers; an uncalled one is an entry point
+            all_stores, sends = effects(m)
             stores = set()
-            sends = False
-            for n in ast.walk(m.node):
-                if isinstance(n, ast.stmt):
-                    for a, v, _ in self_store(n):
-                        if a in INFLIGHT:
-                            if m.name == "_close_transport" and isinstance(v, ast.Constant) and v.value in (None, 0, False):
-                                continue   # clearing state while closing binds no request
-                            stores.add(a)
-                if isinstance(n, ast.Call) and (call_chain(n) or ())[:2] == ("self", "_transport") and (call_chain(n) or ("",))[-1] in ("sendto", "write"):
-                    sends = True
+            for a, v in all_stores:
+                if m.name == "_close_transport" and isinstance(v, ast.Constant) and v.value in (None, 0, False):
+                    continue   # clearing state while closing binds no request
+                stores.add(a)
             if not stores and not sends:
                 continue
             ok = m.name in allowed_writers and not (m.name == "_close_transport" and (stores - {"_timer"} or sends))
